@@ -39,25 +39,52 @@ theorem rejected_changes_nothing_old_code_fails :
 def wNested : Json := .obj [(cfgKey, .obj [([97], .arr [.arr [.num [49], .num [50]]])])]
 def wNestedPath : Bytes := [47, 99, 111, 110, 102, 105, 103, 47, 97, 47, 48, 47, 49]   -- "/config/a/0/1"
 
-/-- **GET does not return every value.**  Full statement
-    `sget parts root = some v → GET = ok (some v)` is false: the element `2` of the inner
-    array of `{"a":[[1,2]]}` is named by `/config/a/0/1`, but the traversal's `[]any` arm only
-    steps into elements, runs off the end of the path and returns `nil` having written
-    nothing (HTTP: 200 with an empty body and the ETag of the empty string). -/
-theorem get_is_lookup_full_fails :
-    ∃ (path : Bytes) (root v : Json), sget (pathParts path).1 root = some v ∧
-      (access .get path .empty root).2 = .ok none :=
-  ⟨wNestedPath, wNested, .num [50], by decide, by decide⟩
+/-- `traverseLoop` as it was before /repo's fix: the array-destination block could only be
+    entered from a map (`v[part].([]any)`); the `[]any` arm just stepped into the element -/
+def travOld (m : Method) (ell : Bool) (val : Json) : List Bytes → Json → Json × Res
+  | [], node => (node, .ok none)
+  | part :: rest, .obj kvs =>
+    match lookup part kvs, rest with
+    | some (.arr arr), [idxStr] => inArrayDest part kvs (arrayOp m ell val idxStr arr)
+    | child, [] => lastOp m ell val part kvs child
+    | child, _ :: _ =>
+      if isNil child && m == .put then inNewObj part kvs (travOld m ell val rest (.obj []))
+      else
+        match child with
+        | none => (.obj kvs, .err .traversal)
+        | some c => inObj part kvs (travOld m ell val rest c)
+  | part :: rest, .arr xs =>
+    match atoi part with
+    | none => (.arr xs, .err .badIndex)
+    | some i =>
+      if i < 0 ∨ i ≥ xs.length then (.arr xs, .err .oob)
+      else
+        match xs[i.toNat]? with
+        | none => (.arr xs, .panic)
+        | some c => inArr i.toNat xs (travOld m ell val rest c)
+  | _ :: _, node => (node, .err .traversal)
 
-/-- **a write can be acknowledged and do nothing.**  Same paths: PATCH (and PUT, POST,
-    DELETE) on an element of an array directly inside an array returns `nil` — the request
-    is answered 200 — and the tree is unchanged. -/
-theorem write_effect_full_fails :
-    ∃ (path : Bytes) (root val : Json),
-      (access .patch path (.val val) root).2 = .ok none ∧
-      (access .patch path (.val val) root).1 = root ∧
-      sget (pathParts path).1 root ≠ some val :=
-  ⟨wNestedPath, wNested, .num [55], by decide, by decide, by decide⟩
+def wNestedParts : List Bytes := (pathParts wNestedPath).1     -- ["config", "a", "0", "1"]
+
+/-- **the old code did not return every value** (non-vacuity of `get_returns_every_value`):
+    the element `2` of the inner array of `{"a":[[1,2]]}` is named by `/config/a/0/1`, but the
+    old `[]any` arm only stepped into elements, ran off the end of the path and returned `nil`
+    having written nothing (HTTP: 200 with an empty body and the ETag of the empty string).
+    The current code returns `2`. -/
+theorem get_is_lookup_old_code_fails :
+    sget wNestedParts wNested = some (.num [50]) ∧
+    (travOld .get false .null wNestedParts wNested).2 = .ok none ∧
+    (access .get wNestedPath .empty wNested).2 = .ok (some (.num [50])) := by
+  decide
+
+/-- **the old code acknowledged writes it did not perform** (non-vacuity of the
+    `write_effect_*` theorems on such paths): PATCH on the same element returned `nil` —
+    answered 200 — with the tree unchanged.  The current code replaces the element. -/
+theorem write_effect_old_code_fails :
+    travOld .patch false (.num [55]) wNestedParts wNested = (wNested, .ok none) ∧
+    (access .patch wNestedPath (.val (.num [55])) wNested).2 = .ok none ∧
+    sget wNestedParts (access .patch wNestedPath (.val (.num [55])) wNested).1 = some (.num [55]) := by
+  decide
 
 /-! #### /id/ -/
 
